@@ -45,6 +45,27 @@ func (r *rng) genSequence(kind int) []byte {
 			b[14+r.intn(len(b)-16)] ^= byte(1 << uint(r.intn(8)))
 		}
 		return b
+	case 5: // a valid sequence cut short: the data size (and the bytes) end inside the last message, then two CRC bytes
+		b := r.genSequence(0)
+		ds := int(binary.LittleEndian.Uint32(b[4:8]))
+		if len(b) != 14+ds+2 || ds < 4 {
+			return b
+		}
+		k := 1 + r.intn(minInt(ds-1, 8))
+		if b[14]&0xE0 == 0x40 && r.chance(1, 2) { // ... or inside the very first data message (the file_id): a peek has to read it
+			n := int(b[14+5])
+			dl, ml := 6+3*n, 1
+			for j := 0; j < n; j++ {
+				ml += int(b[14+6+3*j+1])
+			}
+			if ml > 1 && dl+ml < ds {
+				k = ds - (dl + 1 + r.intn(ml-1))
+			}
+		}
+		out := append([]byte(nil), b[:14+ds-k]...)
+		binary.LittleEndian.PutUint32(out[4:8], uint32(ds-k))
+		out[12], out[13] = 0, 0 // header CRC "not set"
+		return append(out, byte(r.u64()), byte(r.u64()))
 	case 4: // accumulating components / compressed timestamps (state that must not leak)
 		var rec []byte
 		rec = append(rec, 0x40, 0, 0, 20, 0, 2, 253, 4, 0x86, 8, 3, 0x0D) // record: timestamp + compressed_speed_distance
@@ -164,8 +185,8 @@ func c07(args []string) {
 		k := r.intn(4) // sequences before S
 		var chain [][]byte
 		for j := 0; j < k; j++ {
-			kind := r.pick(0, 0, 0, 4, 4, 2, 3)
-			if kind == 3 && !checksum {
+			kind := r.pick(0, 0, 0, 4, 4, 2, 3, 5)
+			if (kind == 3 || kind == 5) && !checksum {
 				// with checksums ignored a corrupted sequence can decode "successfully" while its records overrun the declared data
 				// size; where the next sequence starts is then undefined (scoping remark in DESIGN.md, C07)
 				kind = 0
